@@ -21,6 +21,7 @@ func main() {
 	flag.BoolVar(&cfg.Trace, "trace", false, "trace instructions")
 	flag.BoolVar(&cfg.NoNative, "no-native", false, "skip native replay/validation (development)")
 	flag.BoolVar(&cfg.Verbose, "v", false, "verbose")
+	flag.StringVar(&cfg.Scratch, "scratch", os.Getenv("VERIF_SCRATCH"), "write out/ and evidence/ under this directory instead of -verif")
 	flag.IntVar(&cfg.MaxPaths, "max-paths", 0, "stop after this many paths (development)")
 	flag.Parse()
 	if cfg.ID == "" {
